@@ -21,7 +21,7 @@ From Coq Require Import List String ZArith.
 Import ListNotations.
 From MVGen Require Import Tables_gen JsTables_gen JsGates_gen CliOpts_gen.
 From MV Require Import Base.MvBytes.
-From MV Require Html.HtmlWs Html.HtmlOpts Html.HtmlAttr Html.HtmlAttrProofs Html.HtmlWsProofs Xml.XmlModel Xml.XmlProofs
+From MV Require Html.HtmlAttrLoop Html.HtmlAttrLoopProofs Html.HtmlWs Html.HtmlOpts Html.HtmlAttr Html.HtmlAttrProofs Html.HtmlWsProofs Xml.XmlModel Xml.XmlProofs
   Json.JsonModel Json.JsonSpec Json.JsonProofs Js.RenameModel Js.RenameProofs Js.RenameCapture Js.RenameTop Js.PrintGroup Cli.CliOpts.
 
 Section Html.
@@ -60,6 +60,20 @@ Print Assumptions keep_doc_tags_honoured_start.
 Print Assumptions text_ignores_tag_options.
 Print Assumptions keepquotes_honoured.
 Print Assumptions html_keepws_keeps_leading_space.
+
+Section HtmlAttrs.
+Import HtmlAttrLoop.
+(* KeepDefaultAttrVals: no attribute is dropped for having its default value; KeepQuotes: a quoted value stays quoted *)
+Theorem keep_default_attrvals_honoured : forall o tag a, keep_default o = true -> attr_out o tag a = [] ->
+  attr_value a = [] /\ empty_omitted tag (a_name a) = true.
+Proof. exact HtmlAttrLoopProofs.keep_default_attrvals_honoured. Qed.
+Theorem keep_quotes_honoured_in_loop : forall o tag a,
+  keep_quotes o = true -> (a_quote a = 34 \/ a_quote a = 39) -> attr_value a <> [] -> is_boolean_attr (a_name a) = false -> attr_out o tag a <> [] ->
+  exists q body, (q = 34 \/ q = 39) /\ attr_out o tag a = [32] ++ a_name a ++ [61] ++ [q] ++ body ++ [q].
+Proof. exact HtmlAttrLoopProofs.keep_quotes_honoured_in_loop. Qed.
+End HtmlAttrs.
+Print Assumptions keep_default_attrvals_honoured.
+Print Assumptions keep_quotes_honoured_in_loop.
 
 Section Xml.
 Import XmlModel.
